@@ -1,8 +1,7 @@
 package rules
 
 import (
-	"fmt"
-	"os"
+	"sort"
 	"go/token"
 	"go/types"
 	"strings"
@@ -291,6 +290,19 @@ func cellDerives(p *core.Prog, addr ssa.Value, pred func(ssa.Value) bool, throug
 	if fv, ok := cell.(*ssa.FreeVar); ok && fv != addr {
 		return cellDerives(p, fv, pred, through, depth+1, seen)
 	}
+	if fa, isFA := cell.(*ssa.FieldAddr); isFA {
+		// a field of a small struct of the analysed packages that carries
+		// per-call state (what a closure would have captured): the value read
+		// is one some store puts into that field
+		if fld := core.AddrField(fa); fld != nil && fld.Pkg() != nil && strings.HasPrefix(fld.Pkg().Path(), core.Root) {
+			for _, st := range p.StoresTo(fld) {
+				if s, isSt := st.Instr.(*ssa.Store); isSt && derives(p, s.Val, pred, through, depth+1, seen) {
+					return true
+				}
+			}
+		}
+		return false
+	}
 	al, ok := cell.(*ssa.Alloc)
 	if !ok {
 		return false
@@ -367,43 +379,77 @@ func paramFilledBy(p *core.Prog, prm *ssa.Parameter, pred func(ssa.Value) bool) 
 // is called: encoding/json merges into a non-nil map and skips an empty body.
 func c18RetryState(p *core.Prog, r *core.Report) {
 	n := 0
-	for _, cs := range p.CallsTo("Channel.RunWithRetry") {
-		if !p.InAnalysed(cs.Fn) {
+	stripBox := func(a ssa.Value) ssa.Value {
+		for {
+			if mi, isMI := a.(*ssa.MakeInterface); isMI {
+				a = mi.X
+				continue
+			}
+			if ct, isCT := a.(*ssa.ChangeType); isCT {
+				a = ct.X
+				continue
+			}
+			return a
+		}
+	}
+	// resetAtTop: the cell is assigned in the attempt's first block before any call
+	resetAtTop := func(cl *ssa.Function, isCell func(ssa.Value) bool) bool {
+		for _, i := range cl.Blocks[0].Instrs {
+			if st, isSt := i.(*ssa.Store); isSt && isCell(st.Addr) {
+				return true
+			}
+			if c, isC := i.(ssa.CallInstruction); isC {
+				if _, isB := c.Common().Value.(*ssa.Builtin); !isB {
+					return false
+				}
+			}
+		}
+		return false
+	}
+	for _, at := range retryAttempts(p) {
+		cl := at.Fn
+		if at.Recv != nil {
+			// method value: the state that outlives the attempt is the
+			// receiver's fields; one whose address is handed to a call is
+			// decoded in place
+			passed := map[*types.Var]ssa.Instruction{}
+			core.EachInstr(cl, func(i ssa.Instruction) {
+				if c, isC := i.(ssa.CallInstruction); isC {
+					for _, a := range c.Common().Args {
+						if fa, isFA := stripBox(a).(*ssa.FieldAddr); isFA && fa.X == ssa.Value(at.Recv) {
+							if fld := core.AddrField(fa); fld != nil {
+								passed[fld] = i
+							}
+						}
+					}
+				}
+			})
+			var flds []*types.Var
+			for fld := range passed {
+				flds = append(flds, fld)
+			}
+			sort.Slice(flds, func(i, j int) bool { return flds[i].Name() < flds[j].Name() })
+			for _, fld := range flds {
+				n++
+				reset := resetAtTop(cl, func(addr ssa.Value) bool {
+					fa, isFA := addr.(*ssa.FieldAddr)
+					return isFA && fa.X == ssa.Value(at.Recv) && core.AddrField(fa) == fld
+				})
+				r.Check(reset, "C18-R4", fname(at.Site.Fn), "per-attempt reset of "+fld.Name()+" (decoded in place across retries)", p.Pos(at.MC.Pos()),
+					"assigned at the top of the attempt before any call", "the response value "+fld.Name()+" decoded by a failed attempt survives into the next attempt (stale headers/error merged into the successful response)")
+			}
 			continue
 		}
-		args := core.CallArgs(cs.Call)
-		fnArg := args[len(args)-1]
-		if ct, isCT := fnArg.(*ssa.ChangeType); isCT {
-			fnArg = ct.X
-		}
-		mc, ok := fnArg.(*ssa.MakeClosure)
-		if !ok {
-			continue
-		}
-		cl := mc.Fn.(*ssa.Function)
+		mc := at.MC
 		for k, fv := range cl.FreeVars {
 			if _, isAlloc := mc.Bindings[k].(*ssa.Alloc); !isAlloc {
 				continue
 			}
 			passed := false
-			if os.Getenv("TCHK_DEBUG") != "" {
-				fmt.Printf("DEBUG retry closure %s freevar %s binding %T\n", cl, fv.Name(), mc.Bindings[k])
-			}
 			core.EachInstr(cl, func(i ssa.Instruction) {
 				if c, isC := i.(ssa.CallInstruction); isC {
 					for _, a := range c.Common().Args {
-						for {
-							if mi, isMI := a.(*ssa.MakeInterface); isMI {
-								a = mi.X
-								continue
-							}
-							if ct, isCT := a.(*ssa.ChangeType); isCT {
-								a = ct.X
-								continue
-							}
-							break
-						}
-						if a == ssa.Value(fv) {
+						if stripBox(a) == ssa.Value(fv) {
 							passed = true
 						}
 					}
@@ -413,19 +459,8 @@ func c18RetryState(p *core.Prog, r *core.Report) {
 				continue
 			}
 			n++
-			reset := false
-			for _, i := range cl.Blocks[0].Instrs {
-				if st, isSt := i.(*ssa.Store); isSt && st.Addr == ssa.Value(fv) {
-					reset = true
-					break
-				}
-				if c, isC := i.(ssa.CallInstruction); isC {
-					if _, isB := c.Common().Value.(*ssa.Builtin); !isB {
-						break
-					}
-				}
-			}
-			r.Check(reset, "C18-R4", fname(cs.Fn), "per-attempt reset of "+fv.Name()+" (decoded in place across retries)", p.Pos(mc.Pos()),
+			reset := resetAtTop(cl, func(addr ssa.Value) bool { return addr == ssa.Value(fv) })
+			r.Check(reset, "C18-R4", fname(at.Site.Fn), "per-attempt reset of "+fv.Name()+" (decoded in place across retries)", p.Pos(mc.Pos()),
 				"assigned at the top of the retry closure before any call", "the response value "+fv.Name()+" decoded by a failed attempt survives into the next attempt (stale headers/error merged into the successful response)")
 		}
 	}
